@@ -22,8 +22,11 @@ def _arm_for(m, code):
 
 
 def _stack_effect(arm):
-    push = sum(1 for c in walk_k(arm["body"], "MethodCall") if c["name"] == "push" and path_local(c["recv"]) and path_local(c["recv"])[0] == "stack")
-    pop = sum(1 for c in walk_k(arm["body"], "MethodCall") if c["name"] in ("pop", "split_off") and path_local(c["recv"]) and path_local(c["recv"])[0] == "stack")
+    def is_stack(e):
+        pl = path_local(peel(e))
+        return bool(pl) and pl[0] == "stack"
+    push = sum(1 for c in walk_k(arm["body"], "MethodCall") if c["name"] == "push" and is_stack(c["recv"]))
+    pop = sum(1 for c in walk_k(arm["body"], "MethodCall") if c["name"] in ("pop", "split_off") and is_stack(c["recv"]))
     return push, pop
 
 
@@ -235,6 +238,12 @@ def r_tab_ptg(ctx, rep):
                 from .r_tables import _buf_ranges
                 def src_expr(a):
                     seen = set()
+                    # `first.0` where `first` is a tuple-valued local / parameter of an inlined helper bound to `(row, col)`
+                    f_ = peel(a)
+                    if isinstance(f_, dict) and f_.get("k") == "Field" and str(f_.get("name", "")).isdigit() and path_local(f_["e"]) and path_local(f_["e"])[1] in INITS:
+                        t_ = unwrap(INITS[path_local(f_["e"])[1]])
+                        if t_.get("k") == "Tup" and int(f_["name"]) < len(t_["es"]):
+                            a = t_["es"][int(f_["name"])]
                     pl = path_local(a)
                     while pl and pl[1] in INITS and pl[1] not in seen:
                         seen.add(pl[1])
